@@ -164,6 +164,32 @@ def run(chk):
                     r = st.get(d['id'])
                     if r is None or isinstance(r, dict) or pkg_of(r) != w:
                         chk.violation(f'mixed bundle#{rn}', f'{rn}: the {w} member of a bundle naming no version comes back as {None if r is None else type(r).__module__ + "." + type(r).__name__}', {'route': rn}); break
+        # ---- content whose own spec_version contradicts the version the caller names: refused, never returned under the named class with the other label
+        for named, own in (('2.1', '2.0'), ('2.0', '2.1'), ('2.1', '2.2'), ('2.1', '')):
+            d = {'type': 'identity', 'spec_version': own, 'id': 'identity--' + G.UUID, 'created': '2020-01-01T00:00:00.000Z', 'modified': '2020-01-01T00:00:00.000Z', 'name': 'n', 'identity_class': 'individual'}
+            sco = {'type': 'file', 'spec_version': own, 'id': 'file--' + G.UUID, 'name': 'f'}
+            for rn, fn in (('parse(dict)', lambda: stix2.parse(dict(d), version=named)), ('parse(text)', lambda: stix2.parse(json.dumps(d), version=named)),
+                           ('parse_observable', lambda: stix2.parse_observable(dict(sco), version=named)),
+                           ('MemoryStore(allow_custom=False).add', lambda: (lambda ms: (ms.add(dict(d), version=named), ms.get(d['id']))[1])(stix2.MemoryStore(allow_custom=False))),
+                           ('MemoryStore(stix_data, allow_custom=False, version)', lambda: stix2.MemoryStore([dict(d)], allow_custom=False, version=named).get(d['id'])),
+                           ('FileSystemSink(allow_custom=False).add', lambda: stix2.FileSystemSink(tempfile.mkdtemp(dir=tmp), allow_custom=False).add(dict(d), version=named))):
+                try: r = fn()
+                except (stix2.exceptions.STIXError, ValueError, TypeError): continue
+                lab = r.get('spec_version') if hasattr(r, 'get') else None
+                if r is not None and not isinstance(r, dict) and lab is not None and lab != named:
+                    chk.violation(f'conflict#content labelled for another version than the one named:{rn}', f'{rn}(version={named!r}) of content labelled spec_version={own!r} returns {type(r).__module__}.{type(r).__name__} labelled {lab!r}', {'route': rn, 'named': named, 'own': own}); break
+        # ---- a version named when a store is BUILT concerns the data it is built from; what is added later without a version is recognised from the content
+        for built_with, later in (('2.0', m21), ('2.1', m20)):
+            init = dict(m20) if built_with == '2.0' else dict(m21)
+            lpath = os.path.join(tmp, 'later.json'); open(lpath, 'w').write(json.dumps({'type': 'bundle', 'id': 'bundle--' + G.UUID2, 'objects': [later]}))
+            for rn, mk in (('MemoryStore(data, version=V) then add()', lambda: (lambda ms: (ms.add(dict(later)), ms)[1])(stix2.MemoryStore([dict(init)], version=built_with))),
+                           ('MemoryStore(data, version=V) then load_from_file()', lambda: (lambda ms: (ms.load_from_file(lpath), ms)[1])(stix2.MemoryStore([dict(init)], version=built_with)))):
+                want = '2.1' if later is m21 else '2.0'
+                try: st = mk(); r = st.get(later['id'])
+                except Exception as ex:
+                    chk.violation(f'built-with#a version named at construction is not named in later calls:{rn}', f'{rn} (V={built_with}): adding {want} content later without a version is refused: {type(ex).__name__}: {str(ex)[:100]}', {'route': rn}); continue
+                if r is None or isinstance(r, dict) or pkg_of(r) != want:
+                    chk.violation(f'built-with#a version named at construction is not named in later calls:{rn}', f'{rn} (V={built_with}): {want} content added later without a version comes back as {None if r is None else type(r).__module__ + "." + type(r).__name__}', {'route': rn})
         eps = entry_points(tmp); dicts = sample_dicts()
 
         def cases():
